@@ -274,8 +274,11 @@ func (c *Client) Get(_ context.Context, key client.ObjectKey, obj client.Object,
 		return e
 	}
 	ev.RVBefore = str(o, "metadata", "resourceVersion")
-	w.record(&ev)
 	cp := runtime.DeepCopyJSON(o)
+	if w.KeepBodies {
+		ev.After = cp // what the reader was served (possibly stale)
+	}
+	w.record(&ev)
 	w.mu.Unlock()
 	return c.fromJSON(cp, gvk, obj)
 }
